@@ -254,3 +254,51 @@ func RandomOp(r *rand.Rand, next int, allowNeg bool) Op {
 
 // DBPath joins a scratch dir and a file name.
 func DBPath(dir string, i int) string { return filepath.Join(dir, fmt.Sprintf("db%d", i)) }
+
+// Reusable is a real store over one bbolt file that can be brought back to the state of a fresh
+// database (buckets deleted and re-created, which also resets the bucket sequence) — used to
+// replay many short behaviours without creating a file for each.
+type Reusable struct {
+	Store store.DBStore
+	db    *bolt.DB
+}
+
+func OpenReusable(path string) (*Reusable, error) {
+	db, err := bolt.Open(path, 0o644, &bolt.Options{Timeout: time.Second, NoSync: true, NoFreelistSync: true})
+	if err != nil {
+		return nil, err
+	}
+	st, err := store.NewStoreFromDB(db)
+	if err != nil {
+		return nil, err
+	}
+	return &Reusable{st, db}, nil
+}
+
+// Reset empties the database by dropping all buckets and re-running the store's initialisation.
+func (r *Reusable) Reset() error {
+	err := r.db.Update(func(tx *bolt.Tx) error {
+		var names [][]byte
+		tx.ForEach(func(name []byte, _ *bolt.Bucket) error {
+			names = append(names, append([]byte{}, name...))
+			return nil
+		})
+		for _, n := range names {
+			if err := tx.DeleteBucket(n); err != nil {
+				return err
+			}
+		}
+		return nil
+	})
+	if err != nil {
+		return err
+	}
+	st, err := store.NewStoreFromDB(r.db)
+	if err != nil {
+		return err
+	}
+	r.Store = st
+	return nil
+}
+
+func (r *Reusable) Close() error { return r.db.Close() }
